@@ -54,7 +54,9 @@ def _wild(draw):
     reach = max(30.0, mv * mv / 32.0 * abs(math.sin(2 * max(abs(el), 3.0) * gen.DEG)) * 0.3)
     R = draw(st.one_of(st.floats(10.0, min(reach, 6000.0)), st.floats(10.0, 3000.0), st.floats(3000.0, 3e5)))
     return {"cls": "wild", "shot": spec, "config": cfg, "R": R, "step": R / draw(st.integers(1, 20)),
-            "extra": draw(st.booleans()), "ts": draw(st.sampled_from([0.0, 0.0, 0.1, 1.0]))}
+            "extra": draw(st.booleans()), "ts": draw(st.sampled_from([0.0, 0.0, 0.1, 1.0])),
+            # history: the calculator may have computed a shot from another station altitude before
+            "used_before_alt": draw(st.one_of(st.none(), st.floats(-1000.0, 12000.0)))}
 
 
 @st.composite
@@ -126,6 +128,10 @@ def check(case):
     sh = build.shot(spec)
     atmo_obj, Exceeded = build.counting(sh.atmo, budget)
     calc = build.calculator(cfg)
+    if case.get("used_before_alt") is not None:
+        other = dict(spec, atmo={"kind": "icao", "alt": case["used_before_alt"]}, winds=None, rel=0.02, mv=max(spec["mv"], 900.0))
+        build.fire(calc, build.shot(other), 60.0, 30.0)
+        r.label("calculator-used-before")
     err = None
     try:
         hit = calc.fire(sh, D.Foot(case["R"]), D.Foot(case["step"]), extra_data=case["extra"], time_step=case["ts"])
